@@ -179,6 +179,37 @@ Proof.
   split; [exact H1|]. split; [exact H2|]. split; [exact H3|]. rewrite Hc in H4. split; [exact H4|].
   apply Proofs.Pop3Wire.pop3_roundtrip.
 Qed.
+
+(** The same for a server's whole life: any number of connections [ws], sequential or concurrent.  The store sees
+    their deliveries as single AddMessage calls in SOME order (C07: the stores linearise them), so [ds] is any list
+    each of whose members is a delivery of one of the sessions - every interleaving of the sessions' delivery lists is
+    one, and nothing is assumed about the order. *)
+Theorem any_sessions_to_read_interfaces : forall c o (ws : list str) ds name mb i e num body,
+  let st := store_of ds in
+  (forall d, In d ds -> exists w, In w ws /\ In d (deliveries_of (snd (fst (run_bytes c o w))))) ->
+  (forall d, In d ds -> content (tag_of d) = src d) ->
+  mfa name = Some mb -> nth_error (box mb (live st)) i = Some e -> srcok mb (e_k e) = true ->
+  exists d w,
+    In w ws /\ In d ds /\ d_mailbox d = mb /\ block_in w (d_body d) /\
+    content (m_tag (e_msg e)) = src d /\
+    exec_spec (cfgc cap) st (Get mb (Kth (e_k e))) = (st, OGet (Ok (e_k e, e_msg e)), []) /\
+    Rest.run_handler mfa (cfgc cap) srcok st Rest.HSrc name (Rest.id_of_k (e_k e)) num body = (st, (Rest.S200, Rest.PSrc (e_k e, e_msg e))) /\
+    Rest.run_handler mfa (cfgc cap) srcok st Rest.USrc name (Rest.id_of_k (e_k e)) num body = (st, (Rest.S200, Rest.PSrc (e_k e, e_msg e))) /\
+    nth_error (Pop3.mmsgs (Pop3.get_box (Pop3Store.abs content st) mb)) i =
+      Some {| Pop3.sid := Pop3Store.id_of_k (e_k e); Pop3.ssrc := src d |}.
+Proof.
+  intros c o ws ds name mb i e num body st Hfrom Hsrc Hn Hi Hok.
+  destruct (live_entry_is_a_delivery ds mb i e Hi) as (d & Hin & Hmb & Htag).
+  destruct (Hfrom d Hin) as (w & Hw & Hdw).
+  exists d, w. split; [exact Hw|]. split; [exact Hin|]. split; [exact Hmb|].
+  split; [apply (delivered_bodies_are_decoded_blocks c o w d Hdw)|].
+  assert (Hc : content (m_tag (e_msg e)) = src d) by (rewrite Htag; apply Hsrc; exact Hin).
+  split; [exact Hc|].
+  pose proof (store_of_inv ds) as HI.
+  destruct (read_interfaces_agree_on_source mfa (cfgc cap) srcok content st name mb e i num body HI Hn Hi Hok)
+    as (H1 & H2 & H3 & H4 & _ & _).
+  split; [exact H1|]. split; [exact H2|]. split; [exact H3|]. rewrite Hc in H4. exact H4.
+Qed.
 End Wire.
 
 (** ** The statement with the real source format, and an instance
